@@ -100,7 +100,7 @@ class Spec:
             r = dict(st="ok", bytes=b"", n=0)
         elif name == "setoffset":
             o = int(kv["o"])
-            if self.x and o > len(self.src) and o > self.cur:
+            if self.x and o > len(self.src) and o > self.cur and (self.x is True or self.anchor is not None):   # x = "anchored": class ValidHistXA (every paged opener, FILE included)
                 # specStepX: eslEINVAL, the stream has been read to its end, the cursor stands there, anchors kept
                 self.cur = max(self.cur, len(self.src))
                 r = dict(st="einval", bytes=b"", n=0)
@@ -800,7 +800,7 @@ class C05(Prop):
         # round 3: the API contract discharged
         "step_total", "history_total", "history_total_no_fault", "history_total_no_set", "error_only_outside_contract", "contract_implies_callerOk", "callerOk_decidable", "spec_bracket", "history_memory_exact", "history_memory_mode_independent",
         "unsafe_set_beyond_window", "fixed_setoffset_beyond_end_in_memory", "fixed_anchor_ahead_of_cursor", "fixed_rewind_before_anchor",
-        "stable_ptr_valid_iff", "plain_anchor_no_promise", "setoffset_beyond_end_deterministic", "history_spec_x", "history_x_pagesize_independent", "mode_fixed")]
+        "stable_ptr_valid_iff", "plain_anchor_no_promise", "setoffset_beyond_end_deterministic", "history_spec_x", "history_x_pagesize_independent", "mode_fixed", "history_spec_xa", "history_xa_mode_independent", "retired_never_freed_under_stable", "retired_freed_exactly_once")]
     theorems = theorems + MEM_THEOREMS   # round4-mem
     theorems = theorems + OPEN_THEOREMS   # round4-open
     claimed = True
@@ -811,7 +811,7 @@ class C05(Prop):
                   "readLines_eq_specLines: reading any input line by line on any opener yields exactly specLines src; get_prefix/get_all_in_memory; "
                   "stable_ptr_valid_quiet: pointers stay valid in the whole-input modes and on an exhausted stream. "
                   "Round 6: stable_ptr_valid (a refill under bf->stable never moves or frees a handed-out byte: same memgen, old window a prefix of the new one), stable_ptr_valid_history (along every history of the other 13 operations, any arguments, "
-                  "until the last anchor is raised), stable_anchor_establishes, stable_growth_bounded (allocation doubles: retired blocks sum to less than the live one); memIsRealL_spec/_sound (esl_mem_IsReal after fix 8112354); setoffset_beyond_end_deterministic (outside the contract but one outcome for every page size: SetOffset beyond the end of a paged input = eslEINVAL, cursor at the end, simulation continues); history_spec_x / history_x_pagesize_independent: history_spec for the larger class ValidHistX (contract, or SetOffset beyond the end ahead of the cursor, anywhere in the history) on streams and pipes; mode_fixed. "
+                  "until the last anchor is raised), stable_anchor_establishes, stable_growth_bounded (allocation doubles: retired blocks sum to less than the live one); memIsRealL_spec/_sound (esl_mem_IsReal after fix 8112354); setoffset_beyond_end_deterministic (outside the contract but one outcome for every page size: SetOffset beyond the end of a paged input = eslEINVAL, cursor at the end, simulation continues); history_spec_x / history_x_pagesize_independent: history_spec for the larger class ValidHistX (contract, or SetOffset beyond the end ahead of the cursor, anywhere in the history) on streams and pipes; history_spec_xa / history_xa_mode_independent (round 6b): the same on every paged opener, FILE included, while an anchor is set; retired_never_freed_under_stable / retired_freed_exactly_once (the blocks behind bf->mem and bf->retired: nothing freed under bf->stable, every block freed exactly once by Close, for every sequence of refills); mode_fixed. "
                   "Round 4: history_total / history_total_no_fault for EVERY history on which the code defines the outcome (hypothesis CallerOk: no Set beyond the exposed bytes; anchors ahead of the cursor and rewinds before the anchor included; "
                   "the window invariant and the simulation relation no longer assume anchor <= cursor); history_memory_exact: in the whole-input modes every history equals the total specification memRun; "
                   "esl_buffer_Open/OpenFile/OpenPipe/Close: open_finds_iff (cwd first, then the first listed directory), openFile_mode_spec (mode = function of size and threshold), open_semantics_mode_independent, close_releases_exactly_once, asStr_nul_terminated. "
@@ -845,8 +845,9 @@ class C05(Prop):
                    "the st_blksize clamp is tied only at the sandbox's block size (4096), otherwise held by the regenerated constants (OpenConsts.lean); allocation/popen/fstat failures not modelled",
                    "repaired this round (fix: commits; the witnesses stay in the corpus as regression cases): Read of 0 bytes on an empty slurped file, esl_buffer_Open .gz suffix test, esl_mem_IsReal leading garbage, buffer_refill under a stable anchor; "
                    "the model of the last two follows the working tree (regenerated MemConsts.isRealStart / BufConsts.stableRetire): on a tree without them the known findings C05:mem:isreal-accepts-garbage / C05:stable-anchor:realloc-in-refill are reported on their witnesses",
-                   "stable anchors (repaired code): the model keeps `bf->stable` (Buf.stab) and the growth policy max(n+pagesize, 2*balloc); the retired-block list itself (bf->retired, freed by the first refill after the anchor is gone and by Close) is not a model state: "
-                   "that it is freed exactly once is checked by LeakSanitizer/ASan on every case, not proved"]
+                   "stable anchors (repaired code): the model keeps `bf->stable` (Buf.stab) and the growth policy max(n+pagesize, 2*balloc); the retired-block list (bf->retired, freed by the first refill after the anchor is gone and by Close) is modelled as allocator state beside the window "
+                   "(Buffer/Retired.lean: refillH = what buffer_refill called in state b does to the allocator; theorems retired_never_freed_under_stable, retired_freed_exactly_once for every sequence of refills in any states); "
+                   "that allocator model is tied to the tree by ASan (double free, use after free) and LeakSanitizer on every case, not by the exact comparison"]
     level_text = level_text + " " + MEM_LEVEL_TEXT; assumptions = assumptions + MEM_ASSUMPTIONS; trusted_base = trusted_base + MEM_TRUSTED   # round4-mem
     rule = ("case = one opening (mode, page size, input bytes) + a history of <= 200 operations; three families: (1) histories valid under the API contract, generated by simulating the abstract specification, "
             "the same (input, history) run under 3 configurations and monitored per operation against the python copy of the specification; (2) 'wild' histories with arbitrary arguments (rewinds with/without anchor, offsets at/after the end, "
@@ -952,7 +953,8 @@ class C05(Prop):
                         o = rng.choice([lo, sp.cur, hi, rng.randrange(lo, hi + 1), rng.randrange(lo, min(hi, sp.cur + 40) + 1)])
                         if sp.setoffset_ok(o): cand = "setoffset o=%d" % o
                 if cand is None: cand = "getoffset"
-            if beyond and rng.random() < 0.08: cand = "setoffset o=%d" % (len(src) + rng.choice([1, 1, 2, rng.randrange(1, 5000)]))
+            if beyond and rng.random() < (0.08 if beyond is True else 0.2) and (beyond is True or sp.anchor is not None):
+                cand = "setoffset o=%d" % (len(src) + rng.choice([1, 1, 2, rng.randrange(1, 5000)]))
             if sp.apply(cand) is None:
                 raise AssertionError("generator produced an op outside the contract: " + cand)
             ops.append(cand)
@@ -1149,10 +1151,12 @@ class C05(Prop):
         for i in range(60 if quick else 800):
             xsrc = self.gen_input(rng, False) if rng.random() < 0.7 else self.gen_edge_input(rng, rng.choice([1, 2, 3, 4, 8, 16]))
             xps = rng.choice([1, 2, 3, 4, 5, 7, 8, 16, 17, 32, 33, 64, 65, 128, 129, 512])
-            xm = rng.choice(["stream", "stream", "pipe"])
+            xm = rng.choice(["stream", "stream", "pipe", "file", "file"])
             if xm == "pipe" and len(xsrc) < xps: xm = "stream"          # a short pipe is a whole-input buffer (eslEINVAL, nothing changes)
-            xops = self.gen_history(rng, xsrc, xps, rng.choice([5, 20, 60]), tokens=True, readmax=None, stable=(rng.random() < 0.3), beyond=True)
-            out.append(self.mk("xhist%d.%s.%d" % (i, xm, xps), xsrc, xm, xps, xops, xhist=True))
+            # round 6b: a paged FILE only while an anchor is set (history_spec_xa; without one it repositions with fseeko: Total.beyond_end_seek)
+            xkind = "anchored" if (xm == "file" or rng.random() < 0.25) else True
+            xops = self.gen_history(rng, xsrc, xps, rng.choice([5, 20, 60]), tokens=True, readmax=None, stable=(rng.random() < 0.3), beyond=xkind)
+            out.append(self.mk("xhist%d.%s.%d" % (i, xm, xps), xsrc, xm, xps, xops, xhist=xkind))
             self.stats["xhist_cases"] += 1
         out += open_cases(self, rng, quick, ctx)   # round4-open
         out += mem_cases(rng, quick); self.stats["mem"] = mem_stats(out)   # round4-mem
@@ -1260,7 +1264,7 @@ class C05(Prop):
         if not out or not out[0].startswith("ok"):
             return Failure("monitor", "open of %d bytes in mode %s failed: %r" % (len(src), mode, out[:1]))
         sp = Spec(src)
-        sp.x = bool(case.get("xhist"))
+        sp.x = case.get("xhist") or False
         known = None        # first failure that is a known finding: remembered, the specification is re-synchronised, monitoring goes on
         for i, (op, l) in enumerate(zip(ops[1:], out[1:]), 1):
             if l.startswith(("fault", "atexit")): return known    # reported by the engine as a fault
